@@ -205,11 +205,34 @@ class SchulzZimm(Distribution):
     class schulz_zimm_gen(stats.rv_discrete):
         """Flory Schulz distribution."""
 
-        def _pmf(self, M, z, Mn):
+        @staticmethod
+        def _density(M, z, Mn):
             return z ** (z + 1) / special.gamma(z + 1) * M ** (z - 1) / Mn**z * np.exp(-z * M / Mn)
 
-        def _ppf(self, q, z, Mn):
-            return _integer_ppf(self, q, z, Mn)
+        def _pmf(self, M, z, Mn, norm):
+            return self._density(M, z, Mn) / norm
+
+        def _ppf(self, q, z, Mn, norm):
+            return _integer_ppf(self, q, z, Mn, norm)
+
+        @classmethod
+        def normalization(cls, z, Mn):
+            """
+            Sum of the density over the integer masses 1, 2, ..., which are the support of the mass function.
+
+            The density has the mean Mn, the standard deviation Mn / sqrt(z) and an exponential tail of scale Mn / z.
+            For very large supports the sum differs from 1 by less than the inverse of the support size and is not computed.
+            """
+            upper = Mn * (1 + 40 / np.sqrt(z) + 60 / z) + 200
+            if not np.isfinite(upper) or upper > 5e6:
+                return 1.0
+            try:
+                norm = float(np.sum(cls._density(np.arange(1, int(upper) + 1, dtype=float), z, Mn)))
+            except OverflowError:
+                return 1.0
+            if not np.isfinite(norm) or norm <= 0:
+                return 1.0
+            return norm
 
     def __init__(self, raw_text):
         """
@@ -236,6 +259,7 @@ class SchulzZimm(Distribution):
         # The support starts at mass 1: at mass 0 the density is positive for Mw = 2 Mn
         # and diverges for Mw > 2 Mn, which made every draw 0 and the total probability exceed 1.
         self._distribution = self.schulz_zimm_gen(a=1, name="Schulz-Zimm")
+        self._norm = self.schulz_zimm_gen.normalization(self._z, self._Mn)
 
     def generate_string(self, extension):
         if extension:
@@ -249,17 +273,18 @@ class SchulzZimm(Distribution):
     def draw_mw(self, rng=None):
         if rng is None:
             rng = _GLOBAL_RNG
-        return self._distribution.rvs(z=self._z, Mn=self._Mn, random_state=rng)
+        return self._distribution.rvs(z=self._z, Mn=self._Mn, norm=self._norm, random_state=rng)
 
     def prob_mw(self, mw):
         if isinstance(mw, gbigsmiles.mol_prob.RememberAdd):
             return self._distribution.cdf(
-                mw.value, z=self._z, Mn=self._Mn
-            ) - self._distribution.cdf(mw.previous, z=self._z, Mn=self._Mn)
+                mw.value, z=self._z, Mn=self._Mn, norm=self._norm
+            ) - self._distribution.cdf(mw.previous, z=self._z, Mn=self._Mn, norm=self._norm)
         return self._distribution.pmf(
             int(mw),
             z=self._z,
             Mn=self._Mn,
+            norm=self._norm,
         )
 
 
